@@ -38,6 +38,7 @@ fn run_case(case: &Sexp) -> String {
     "group_by" => group::run_group_by(body),
     "flatten" => flatten::run_flatten(body),
     "timed" => timed::run_timed(body),
+    "timedchain" => timed::run_timedchain(body),
     "async" => asyncsrc::run_async(body),
     "atform" => timed::run_atform(body),
     "subalg" => subalg::run_subalg(body),
